@@ -1143,10 +1143,11 @@ class EOM:
 
         # Need to solve wallWidth and wallOffset. For this, put wallParams in a 1D array
         # NOT including the offset of the reference field, which we keep at 0. The
-        # reference field is the first one that changes between the two phases (a field
-        # with the same value in both phases has no wall that could fix the position).
+        # reference field is the one that changes most between the two phases: a field
+        # with the same value in both phases has no wall that could fix the position,
+        # and the choice must not depend on the order in which the fields are listed.
         vevChange = np.abs(np.asarray(vevLowT - vevHighT)).reshape(-1)
-        pinnedField = int(np.argmax(vevChange > 1e-10 * np.max(vevChange)))
+        pinnedField = int(np.argmax(vevChange))
         wallArray: np.ndarray = np.concatenate(
             (wallParams.widths, np.delete(wallParams.offsets, pinnedField))
         )  ## should work even if offsets is just 1 element
